@@ -19,9 +19,9 @@ use crate::tape::{mix, Tape};
 pub struct CrashEngine;
 
 #[derive(Clone, Debug)]
-struct Trans {
-    state: Option<Gen>,
-    ret: u64,
+pub struct Trans {
+    pub state: Option<Gen>,
+    pub ret: u64,
 }
 
 #[derive(Default)]
@@ -144,14 +144,37 @@ impl Engine for CrashEngine {
         let forged = property == "C03" || c.chance(1, 4);
         let flush_pct = if property == "C02" { 14 } else { 8 };
         let mut clients = Vec::new();
+        // family: several clients that each make a key durable, modify or delete it and flush
+        // again, so that acknowledgements race with each other's retirements
+        let racing_flushers = n_clients >= 2 && (property == "C02" || property == "C05") && c.chance(2, 5);
         for ci in 0..n_clients {
             let mine: Vec<usize> = (0..keys.len()).filter(|k| k % n_clients == ci).collect();
             let n_ops = 4 + w.below(if tier == "thorough" { 40 } else { 24 }) as usize;
-            clients.push(gen_ops(&mut w, &mine, n_ops, ttl, blocks_cap, forged, flush_pct));
+            let few = 1 + w.below(4) as usize;
+            let mut ops = if racing_flushers {
+                gen_ops(&mut w, &mine, few, ttl, blocks_cap, false, 0)
+            } else {
+                gen_ops(&mut w, &mine, n_ops, ttl, blocks_cap, forged, flush_pct)
+            };
+            if racing_flushers {
+                let key = mine[w.below(mine.len() as u32) as usize];
+                let small = |w: &mut Tape| Val { len: 20 + w.below(200) as usize, kind: ValKind::Plain };
+                ops.push(Op::Insert { key, val: small(&mut w), ts: Ts::Auto, ttl: 0, bytes: false });
+                ops.push(Op::Flush);
+                for _ in 0..1 + w.below(3) {
+                    ops.push(if w.chance(1, 2) {
+                        Op::Delete { key, ts: Ts::Auto }
+                    } else {
+                        Op::Insert { key, val: small(&mut w), ts: Ts::Auto, ttl: 0, bytes: false }
+                    });
+                    ops.push(Op::Flush);
+                }
+            }
+            clients.push(ops);
         }
         let mut knobs = BTreeMap::new();
         let thorough = tier == "thorough";
-        knobs.insert("crash_points".into(), if thorough { if c.chance(1, 3) { -1 } else { 12 } } else { 3 });
+        knobs.insert("crash_points".into(), if thorough { if c.chance(1, 3) { -1 } else { 12 } } else if racing_flushers { 6 } else { 3 });
         knobs.insert("images_per_point".into(), if thorough { 64 } else { 10 });
         knobs.insert("tear_unit".into(), *c.pick(&[512i64, 4096]));
         knobs.insert("after_first_ack".into(), (property == "C02") as i64);
@@ -204,9 +227,13 @@ impl Engine for CrashEngine {
                 if total_calls <= lo {
                     break;
                 }
-                let p = if i % 2 == 0 && !first.site_calls.is_empty() {
+                let p = if i % 3 == 0 && !first.site_calls.is_empty() {
                     // bias: right around a protocol step of the flush / retirement path
                     let (_, call) = first.site_calls[pick.below(first.site_calls.len() as u32) as usize];
+                    (call + pick.below(3) as u64).clamp(lo, total_calls - 1)
+                } else if i % 3 == 1 && !first.ack_calls.is_empty() {
+                    // bias: right after an acknowledgement was handed out
+                    let call = first.ack_calls[pick.below(first.ack_calls.len() as u32) as usize];
                     (call + pick.below(3) as u64).clamp(lo, total_calls - 1)
                 } else {
                     lo + pick.range(0, total_calls - lo - 1)
@@ -229,15 +256,17 @@ impl Engine for CrashEngine {
     }
 }
 
-struct WorkloadRun {
-    capture: CrashCapture,
-    hist: BTreeMap<Vec<u8>, Vec<Trans>>,
-    acks: Vec<(u64, u64)>,
-    calls: u64,
-    first_ack_call: Option<u64>,
+pub struct WorkloadRun {
+    pub capture: CrashCapture,
+    pub hist: BTreeMap<Vec<u8>, Vec<Trans>>,
+    pub acks: Vec<(u64, u64)>,
+    pub calls: u64,
+    pub first_ack_call: Option<u64>,
+    /// device call index at which each acknowledged flush returned
+    pub ack_calls: Vec<u64>,
     /// (site, device call index) of protocol steps seen
-    site_calls: Vec<(&'static str, u64)>,
-    crashed_inside: bool,
+    pub site_calls: Vec<(&'static str, u64)>,
+    pub crashed_inside: bool,
 }
 
 /// One client's operations against its own keys, recording every accepted transition.
@@ -399,6 +428,7 @@ fn run_workload(sim: &Arc<Sim>, sc: &Scenario, crash_at_call: Option<u64>, repor
                 acks: Vec::new(),
                 calls: disk.calls(),
                 first_ack_call: None,
+                ack_calls: Vec::new(),
                 site_calls: Vec::new(),
                 crashed_inside: true,
             });
@@ -463,6 +493,7 @@ fn run_workload(sim: &Arc<Sim>, sc: &Scenario, crash_at_call: Option<u64>, repor
         .filter_map(|(site, ev)| event_to_call(ev + 1).map(|c| (site, c)))
         .collect();
     let calls = disk.calls();
+    let ack_calls: Vec<u64> = acks.iter().map(|(_, ret)| event_to_call(*ret).unwrap_or(calls)).collect();
     // the old instance must terminate on a dead device
     env.close();
     let hist = std::mem::take(&mut *rec.hist.lock().unwrap());
@@ -474,15 +505,16 @@ fn run_workload(sim: &Arc<Sim>, sc: &Scenario, crash_at_call: Option<u64>, repor
         acks,
         calls,
         first_ack_call,
+        ack_calls,
         site_calls,
         crashed_inside,
     })
 }
 
-type Contents = BTreeMap<Vec<u8>, Gen>;
+pub type Contents = BTreeMap<Vec<u8>, Gen>;
 
 /// Everything the reopened store exposes.
-fn contents(env: &Env) -> Result<Contents, (String, String)> {
+pub fn contents(env: &Env) -> Result<Contents, (String, String)> {
     let store = env.st();
     let mut out = Contents::new();
     for k in store.verif_hash_keys() {
@@ -505,7 +537,7 @@ fn contents(env: &Env) -> Result<Contents, (String, String)> {
 }
 
 /// The durability / authenticity oracle (DESIGN 4.3).
-fn check_recovered(
+pub fn check_recovered(
     run: &WorkloadRun,
     got: &Contents,
     len: usize,
@@ -720,6 +752,14 @@ fn process_capture(sim: &Arc<Sim>, sc: &Scenario, run: &WorkloadRun, report: &mu
         } else {
             report.count("recoveries_with_repair_writes", 1);
         }
+        // exact accounting on the recovered state (C13)
+        if let Err(f) = checks::check_accounting_observed(&env) {
+            report.fail(f.rule, format!("[{label}] after recovery: {}", f.detail));
+            break;
+        }
+        if run.capture.unsynced.len() > 0 {
+            report.count("accounting_checks_after_recovery", 1);
+        }
         // partition invariant on the recovered state (C05)
         match checks::check_partition(&env) {
             Ok(_) => report.count("partition_checks_after_recovery", 1),
@@ -797,7 +837,7 @@ fn process_capture(sim: &Arc<Sim>, sc: &Scenario, run: &WorkloadRun, report: &mu
     env.cleanup();
 }
 
-fn contents_diff(a: &Contents, b: &Contents, ttl: bool, now: u64) -> Option<String> {
+pub fn contents_diff(a: &Contents, b: &Contents, ttl: bool, now: u64) -> Option<String> {
     for (k, g) in a {
         match b.get(k) {
             Some(g2) if g2 == g => {}
@@ -894,7 +934,7 @@ fn nested_crash(
 
 /// The recovered store accepts new work: write, flush, read back, delete, flush, and the
 /// durable image then decodes to exactly its contents.
-fn probe_store(sim: &Arc<Sim>, env: &Env, r1: &Contents, label: &str) -> Result<(), (String, String)> {
+pub fn probe_store(sim: &Arc<Sim>, env: &Env, r1: &Contents, label: &str) -> Result<(), (String, String)> {
     let store = env.st();
     let key = b"probe:after-recovery".to_vec();
     let value = harness::plain_value(250, 9, 1, 700);
